@@ -56,11 +56,11 @@ func newStats() *stats {
 }
 
 type gen struct {
-	r     *rng
-	w     *bufio.Writer
-	st    *stats
+	r        *rng
+	w        *bufio.Writer
+	st       *stats
 	longColl string // non-empty: every collation string of the history starts with this very long stem
-	drain bool // after the main phases: delete every pool key, look at the empty tree, start over
+	drain    bool   // after the main phases: delete every pool key, look at the empty tree, start over
 	wideColl bool   // collation pool of stem+ideograph strings (wide nodes)
 	collStem string
 }
@@ -388,8 +388,8 @@ func allKinds() []kindSpec {
 type profile struct {
 	// weights of op classes
 	ins, del, srch, size, minmax, iter, bounded, rng, pfx int
-	dumpEvery                                          int // 0 = only at the end
-	multipass                                          bool
+	dumpEvery                                             int // 0 = only at the end
+	multipass                                             bool
 }
 
 var profiles = map[string]profile{
